@@ -25,7 +25,7 @@ func init() {
 	register(&Property{ID: "C08", Run: c08Run, Replay: func(c *Ctx, cas json.RawMessage, ch []int) {
 		var k c08Case
 		json.Unmarshal(cas, &k)
-		m := fromJSON(string(k.Map)).(map[string]interface{})
+		m := retype(fromJSON(string(k.Map))).(map[string]interface{})
 		resetOptions()
 		if k.Sep != "" {
 			mxj.SetFieldSeparator(k.Sep)
@@ -174,6 +174,11 @@ func refSubKeys(v interface{}, conds []cond, negAbsent bool) bool {
 				holds = ok && b == cv
 			case float64:
 				f, ok := x.(float64)
+				if n, isN := x.(json.Number); isN { // the library's own decoder under JsonUseNumber
+					if nf, err := n.Float64(); err == nil {
+						f, ok = nf, true
+					}
+				}
 				holds = ok && f == cv
 			}
 		}
@@ -349,7 +354,10 @@ func c08Key(c *Ctx, m map[string]interface{}, key string, choices []int) (nontri
 // filterExpect computes the acceptable filtered results (one per reading of the ambiguity set).
 func filterExpect(unfiltered []interface{}, conds []cond) [][]string {
 	var out [][]string
-	for _, negAbsent := range []bool{false, true} {
+	// a negated condition is documented as an "exclusion criteria": a map that lacks the key does not meet the
+	// criterion and is not excluded (until the second bug-hunt round both readings were accepted - an ambiguity
+	// that came from the code, not from the documentation)
+	for _, negAbsent := range []bool{true} {
 		var r []interface{}
 		for _, v := range unfiltered {
 			if refSubKeys(v, conds, negAbsent) {
@@ -488,7 +496,7 @@ func c08PathFilter(c *Ctx, m map[string]interface{}, path string, specs []string
 func c08Run(c *Ctx) {
 	mustBeDefault(c)
 	c.S.Rule = "part 1 (search): every Map template with <= N nodes over keys {a,bbbb,k} plus the sibling family {a:[M1,M2]} (Mi every map template with <= 4 nodes over {a,k}) (lists, list-in-list, empty containers, unique leaves) x keys {a,b,k,z,*}: ValuesForKey/ValueForKey vs reference, PathsForKey as a set, PathForKeyShortest minimal, and values-through-paths = ValuesForKey. part 2 (filters): every Map template with <= M nodes over keys {a,k} with typed leaves {\"s\",1,true} x key/path x every set of 1..2 sub-key conditions over {a (maybe present), z (absent)} x {matching, non-matching, *} x {untyped, :string, :bool, :num} x {plain, negated}, under field separators ':', '|', the two-byte character U+00A6 and the two-character '::' (plus sub-key texts that are well formed under both separators with different meanings, used under one separator after the other, back and forth; number-typed conditions in 22 spellings x 5 type names x plain/negated): filtered result = maps of the unfiltered result satisfying the reference predicate. Each case runs under ascending and descending map order; cases that range over >= 2 keys are also explored under every single order deviation (E-choice bound 1). Result slices are retained (last 16) and re-checked after every later call. non-trivial = key present (part 1) / filter keeps a proper non-empty subset (part 2)."
-	c.S.Assumptions = []string{"negated condition with a concrete value on an absent key: satisfied and not-satisfied readings both accepted", "reference search/filter semantics in harness/c08.go written from the documentation"}
+	c.S.Assumptions = []string{"reference search/filter semantics in harness/c08.go written from the documentation"}
 	n1, n2, ech := 6, 5, 5
 	if c.Thorough {
 		n1, n2, ech = 7, 6, 6
@@ -727,7 +735,12 @@ func c08Run(c *Ctx) {
 				c.S.States++
 				c.S.Evaluations++
 				c.S.Schedules++
-				c08NumSpelling(c, numMap, neg+"a:"+sp+":"+typ, sp, neg == "!")
+				c08NumSpelling(c, numMap, neg+"a:"+sp+":"+typ, sp, neg == "!", false)
+				if typ == "num" {
+					// the same Map as the library's own decoder returns it under JsonUseNumber (json.Number leaves)
+					c08NumSpelling(c, numMap, neg+"a:"+sp+":"+typ, sp, neg == "!", true)
+					c.S.Schedules++
+				}
 			}
 		}
 	}
@@ -752,10 +765,16 @@ func c08Run(c *Ctx) {
 }
 
 // c08NumSpelling: one number-typed condition on the key "a" of the members of list k.
-func c08NumSpelling(c *Ctx, js, spec, spelling string, negated bool) {
+func c08NumSpelling(c *Ctx, js, spec, spelling string, negated, useNum bool) {
 	m := fromJSON(js).(map[string]interface{})
+	if useNum {
+		d := json.NewDecoder(strings.NewReader(js))
+		d.UseNumber()
+		m = map[string]interface{}{}
+		d.Decode(&m)
+	}
 	cas := func() interface{} {
-		return c08Case{Map: json.RawMessage(js), Key: "k", SubKeys: []string{spec}, Pol: rt.OrderPolicy}
+		return c08Case{Map: json.RawMessage(jsonOf(untype(m))), Key: "k", SubKeys: []string{spec}, Pol: rt.OrderPolicy}
 	}
 	want, perr := strconv.ParseFloat(spelling, 64)
 	var got []interface{}
@@ -783,6 +802,10 @@ func c08NumSpelling(c *Ctx, js, spec, spelling string, negated bool) {
 		em := e.(map[string]interface{})
 		v, present := em["a"]
 		f, isNum := v.(float64)
+		if n, isN := v.(json.Number); isN {
+			f, _ = n.Float64()
+			isNum = true
+		}
 		holds := present && isNum && f == want
 		if negated {
 			if present && !holds {
@@ -797,7 +820,8 @@ func c08NumSpelling(c *Ctx, js, spec, spelling string, negated bool) {
 		}
 	}
 	g := sortedCopy(dumpSeq(got))
-	if !eqStrings(g, sortedCopy(exp)) && !eqStrings(g, sortedCopy(expAlt)) {
+	_ = expAlt // (the second reading of a negated condition on an absent key is no longer accepted)
+	if !eqStrings(g, sortedCopy(exp)) {
 		c.Violate("Map.ValuesForKey(subkeys)", "pure-filter", "number-spelling", cas, nil, fmt.Sprintf("sub-key %q denotes the number %v\n expected=%v\n   actual=%v", spec, want, sortedCopy(exp), g))
 	}
 }
